@@ -81,9 +81,9 @@ public:
     const auto & x = static_cast<const _Derived &>(*this).coeffs().y();
     const auto & y = static_cast<const _Derived &>(*this).coeffs().x();
 
-    using std::atan2;
+    using std::atan2, std::abs;
     if (y <= 0.) {
-      return atan2(y, x);
+      return -abs(atan2(y, x));
     } else {
       return atan2(-y, -x) - Scalar(M_PI);
     }
@@ -97,9 +97,9 @@ public:
     const auto & x = static_cast<const _Derived &>(*this).coeffs().y();
     const auto & y = static_cast<const _Derived &>(*this).coeffs().x();
 
-    using std::atan2;
+    using std::atan2, std::abs;
     if (y >= 0.) {
-      return atan2(y, x);
+      return abs(atan2(y, x));
     } else {
       return Scalar(M_PI) + atan2(-y, -x);
     }
